@@ -8,6 +8,8 @@ PATTERNS = ["*.tmp", "notes", "Sound/", "a?"]
 def scenario(rng, i):
     tree = gen.gen_tree(rng, max_entries=14)
     fm = rng.sample(gen.FORMATS, rng.choice([1, 2, 3, 6]))
+    if i % 5 == 4:
+        fm = fm + [fm[0]] + ([fm[-1]] if len(fm) > 1 else [])      # the same -h given twice: each child still counts once
     st = {"op": "create", "fmts": fm}
     if i % 3 == 0:
         st["i"] = rng.sample(PATTERNS + gen.path_patterns(tree, rng, k=3), rng.choice([1, 2]))
@@ -38,6 +40,7 @@ CORPUS = [{"tree": {"a.bin": {"f": "0102"}, "b.bin": {"f": "0102"}, "e1": {"f": 
                     "D2": {"d": {"c1.bin": {"f": "0102"}, "c2.bin": {"f": "0102"}, "E": {"d": {}}, "F": {"f": ""}, "z": {"f": ""}}}},
            "steps": [{"op": "create", "fmts": ["md5", "c4"]}, {"op": "verifydh", "co": True},
                      {"op": "rename", "path": "D/c2.bin", "to": "D/c3.bin"}, {"op": "verifydh", "co": True},
-                     {"op": "create", "fmts": ["xxh64"]}, {"op": "verifydh"}]}]
+                     {"op": "create", "fmts": ["xxh64"]}, {"op": "verifydh"},
+                     {"op": "create", "fmts": ["sha1", "md5", "sha1"]}, {"op": "verifydh"}, {"op": "verifydh", "co": True}]}]
 check, replay = make("C07", oracles.oracle_c07, scenario, 60, 1500, RULE, corpus=CORPUS,
                      nontrivial=lambda scn, obs: bool(gen.all_dirs(scn["tree"])))
